@@ -203,11 +203,66 @@ fn ms_obs<Ctx: ScriptContext>(u: &Universe, case: &Value) -> Value {
         }
         let mut idt = MapT { u, map: MAPS[0].1.to_vec(), ctx: ctx.to_string() };
         o["identity_eq"] = json!(d.translate_pk(&mut idt).map(|x| x == d).unwrap_or(false));
+        // what a translation returns is a descriptor of its type: under every injective mapping
+        // (also the one producing an uncompressed key) an Ok result must print and parse back
+        let mut objs = vec![valid_after(u, ctx, wrap, &d)];
+        let is_pk1 = case["ast"]["f"] == "c" && case["ast"]["xs"][0]["f"] == "pk_k" && case["ast"]["xs"][0]["n"] == 1;
+        if is_pk1 {
+            let k1 = u.key_str(1, ctx);
+            let forms: Vec<(&str, String)> = match ctx {
+                "legacy" => vec![("pkh", format!("pkh({})", k1))],
+                "segwitv0" => vec![("wpkh", format!("wpkh({})", k1)), ("shwpkh", format!("sh(wpkh({}))", k1))],
+                "tap" => vec![("trkey", format!("tr({})", k1))],
+                _ => vec![],
+            };
+            for (w, text) in forms {
+                if let Ok(kd) = Desc::from_str(&text) {
+                    objs.push(valid_after(u, ctx, w, &kd));
+                }
+            }
+        }
+        o["valid"] = json!(objs);
         o
     }));
     ev["desc"] = dres.unwrap_or(json!({"have": false, "panic": true}));
     let _ = INTERNAL_KEY;
     ev
+}
+
+/// translate `d` under the injective mappings; for each: outcome and whether an Ok result is an
+/// object its own parser accepts and finds equal
+fn valid_after(u: &Universe, ctx: &str, wrap: &str, d: &Desc) -> Value {
+    let mut rows = vec![];
+    for (name, map) in MAPS.iter().filter(|(n, _)| ["identity", "rename", "uncompressed_1", "shift"].contains(n)) {
+        let r = catch_unwind(AssertUnwindSafe(|| {
+            let mut t = MapT { u, map: map.to_vec(), ctx: ctx.to_string() };
+            match d.translate_pk(&mut t) {
+                Ok(td) => {
+                    let text = td.to_string();
+                    let back = Desc::from_str(&text);
+                    let mut tk = vec![];
+                    td.for_each_key(|k| {
+                        tk.push(key_id(u, k));
+                        true
+                    });
+                    json!({"name": name, "st": "ok", "reparse": match back {
+                        Ok(b) => if b == td { "equal" }
+                                 // (a bare c:pk_h prints as pkh(K), which parses as the pkh output type)
+                                 else if b.to_string() == text && b.script_pubkey() == td.script_pubkey() { "same_output" }
+                                 else { "differs" },
+                        Err(_) => "rejected" }, "keys": tk})
+                }
+                Err(e) => json!({"name": name, "st": "err", "reparse": "", "keys": [], "msg": format!("{:?}", e)}),
+            }
+        }));
+        rows.push(r.unwrap_or(json!({"name": name, "st": "panic", "reparse": "", "keys": []})));
+    }
+    let mut keys = vec![];
+    d.for_each_key(|k| {
+        keys.push(key_id(u, k));
+        true
+    });
+    json!({"wrap": wrap, "keys": keys, "rows": rows})
 }
 
 /// AST text with symbolic key names K1.. and the real hash strings
